@@ -109,10 +109,15 @@ def main() -> int:
     # ---- classify ---------------------------------------------------------------------------
     rdir = os.path.join(VERIF, 'replays', pid)
     violations = []
+    seen_keys = set()
     for ob in obs:
         if ob.verdict != 'refuted':
             continue
         key = key_fn(ob)
+        if key in seen_keys:
+            ob.verdict = 'duplicate'
+            continue
+        seen_keys.add(key)
         if key in known:
             ob.verdict = 'known'
             if key not in printed_known:
@@ -156,9 +161,11 @@ def main() -> int:
 
     write_evidence(mod, pid, args.tier, seed, obs, violations, vacuous, wall, printed_known)
 
-    for ob in violations:
+    for ob in violations[:20]:
         log(f'VIOLATION property={pid} replay={ob.replay_path}')
         log(f'  {ob.name}: {ob.detail[:400]}')
+    if len(violations) > 20:
+        log(f'... and {len(violations) - 20} more violations (see evidence)')
     if violations:
         return 1
     if harness_errors or vacuous:
